@@ -400,6 +400,27 @@ class SparseArray:
             axis = (axis,)
         if len(set(axis)) != len(axis):
             raise ValueError("duplicate value in 'axis'")
+        reduced_axes = tuple(range(self.ndim)) if axis == (None,) else axis
+        if reduce_super_ufunc is None and any(self.shape[ax] == 0 for ax in reduced_axes):
+            # nothing to reduce over: the result is the identity of the ufunc, if it has one (NumPy)
+            if method.identity is None:
+                raise ValueError(f"zero-size array to reduction operation {method.__name__} which has no identity")
+            from ._coo import COO
+
+            identity = method.reduce(np.empty((0,), dtype=self.dtype), **kwargs)
+            if keepdims:
+                shape = tuple(1 if ax in reduced_axes else s for ax, s in enumerate(self.shape))
+            else:
+                shape = tuple(s for ax, s in enumerate(self.shape) if ax not in reduced_axes)
+            if not shape:
+                return identity
+            out = COO(
+                np.empty((len(shape), 0), dtype=np.intp),
+                np.empty((0,), dtype=identity.dtype),
+                shape=shape,
+                fill_value=identity,
+            )
+            return out if isinstance(self, COO) else out.asformat(self.format)
         out = self._reduce_calc(method, axis, keepdims, **kwargs)
         if len(out) == 1:
             return out[0]
